@@ -21,9 +21,11 @@ import vlib
 from vlib import ToolError, log
 
 TIERS = {"quick": dict(cap=4000, samples=12, maxdepth=4, shards=16, wall=3,
-                       wall_go=["go movetime 20", "go movetime 400", "go wtime 15000 btime 15000 winc 0 binc 0"]),
+                       wall_go=["go movetime 0", "go movetime 5", "go movetime 20", "go movetime 400", "go wtime 15000 btime 15000 winc 0 binc 0",
+                                "go wtime 5100 btime 5100 winc 0 binc 0"]),
          "thorough": dict(cap=60000, samples=150, maxdepth=6, shards=16, wall=16,
-                          wall_go=["go movetime 20", "go movetime 400", "go movetime 1500", "go wtime 15000 btime 15000 winc 0 binc 0",
+                          wall_go=["go movetime 0", "go movetime 1", "go movetime 5", "go movetime 9", "go movetime 20", "go movetime 400", "go movetime 1500",
+                                   "go wtime 5100 btime 5100 winc 0 binc 0", "go wtime 3000 btime 3000 winc 0 binc 0", "go wtime 1 btime 1", "go wtime 15000 btime 15000 winc 0 binc 0",
                                    "go btime 9000 wtime 9000 binc 300 winc 300", "go depth 40 movetime 250"])}
 WALL_REPS = 5
 WALL_TOL_MS = 500
